@@ -122,6 +122,38 @@ def e2e(args):
     return None
 
 
+# the three definition sources carry the SAME replacement text to the same result: command line (through the real CLI front end),
+# ISA definition, #define. Texts with commas, blanks, a quoted semicolon, a quoted comma, parentheses.
+SOURCE_TEXTS = [('0x11,0x22,0x33', [0x11, 0x22, 0x33]), ('1, 2', [1, 2]), ("'a', ';', 'b'", [97, 59, 98]), ("';'", [59]), ("','", [44]),
+                ('(2 + 3) * 4', [20]), ('7', [7]), ('"a;b"', [97, 59, 98]), ('"x, y"', [120, 44, 32, 121]), ('$0F', [15]), ('0FH', [15])]
+
+
+def source_case(args):
+    text, want, source = args
+    src = '.byte TABSYM\n.byte 255\n'
+    case = {'config': carrier_yaml(symbols=[('TABSYM', text)] if source == 'isa' else None),
+            'files': {'main.asm': (f'#define TABSYM {text}\n' if source == 'define' else '') + src},
+            'defines': [f'TABSYM={text}'] if source == 'cli' else []}
+    obs = runner.run_cli(case) if source == 'cli' else runner.run_case(case)
+    exp = bytes(want + [255])
+    if obs['status'] != 'ok':
+        return f'symbol defined by {source} with the text {text!r}: rejected ({(obs.get("msg") or "")[-120:]})', case
+    if obs['image'] != exp:
+        return f'symbol defined by {source} with the text {text!r}: ".byte TABSYM" emits {obs["image"].hex()}, the replacement text prescribes {exp.hex()}', case
+    return None
+
+
+def run_sources(chk):
+    jobs = [(t, w, src) for t, w in SOURCE_TEXTS for src in ('cli', 'isa', 'define')]
+    outs = runner.pmap(source_case, jobs)
+    for j, r in zip(jobs, outs):
+        chk.traces += 1
+        chk.nontriv(('source', j[0], j[2]))
+        if r is not None:
+            chk.violation(r[0], r[1], j[1], r[0], {'kind': 'source'})
+    chk.notes['definition_source_cases'] = len(jobs)
+
+
 def run(chk):
     quick = chk.tier == 'quick'
     rng = random.Random(chk.seed + 9)
@@ -132,7 +164,7 @@ def run(chk):
                 'and rightmost single-step rewriting), NoDefinedSymbolRemains, OnlyWholeWords, CycleRejected, '
                 'RedefinitionRejected. Each history is replayed line by line into one real Preprocessor object '
                 '(create_symbol / resolve_symbols) and compared token for token - three times: as is, with the names renamed letter-wise to look like hexadecimal literals (ADC, ADCH, FADC, CH), and with every use line repeated nine times (ExpansionIsTokenwise); a sample goes end to end (#define lines, '
-                '.byte use lines, residual identifiers bound to constants, -D and predefined.symbols). '
+                '.byte use lines, residual identifiers bound to constants, -D and predefined.symbols). Eleven replacement texts with commas, blanks, quoted semicolons and commas are defined through each of the three sources (the command line through the real CLI front end) and must give the same bytes. '
                 'Non-trivial = history with a use line after at least one definition.')
     chk.assumptions = ['a cyclic symbol that is never used is not required to be rejected',
                        'end-to-end expected byte = Python arithmetic over the token list the specification produced']
@@ -168,4 +200,5 @@ def run(chk):
             chk.traces += 1
             if r is not None:
                 chk.violation(r[0] + ' | ' + json.dumps(a[0]), r[1], {'outs': a[1], 'status': a[2]}, r[0], {'kind': 'e2e'})
+    run_sources(chk)
     chk.exhaustive = True
